@@ -154,6 +154,11 @@ PRIMS = {
 def check_prim(ctx, case):
     name = case['prim']
     x = case['state']
+    lay = case.get('layout')
+    if lay == 'swap' and x.ndim >= 3:
+        x = np.ascontiguousarray(x.swapaxes(0, 1)).swapaxes(0, 1)      # same values, leading axes not in C order (as selection functions build them)
+    elif lay:
+        x = gen.relayout(x, lay)
     x0 = x.copy()
     if name in PRIMS:
         f, ref = PRIMS[name]
@@ -175,7 +180,7 @@ def check_prim(ctx, case):
         raise Violation('aes.%s differs from its FIPS-197 definition (first differing index %s)' % (name, bad), case)
     if not np.array_equal(x, x0):
         raise Violation('aes.%s modified its input' % name, case)
-    ctx.case(case, True, ['prim:' + name])
+    ctx.case(case, True, ['prim:' + name, 'ndim:%d' % x.ndim] + (['layout:' + lay] if lay else []))
 
 
 def unit_primitives(ctx, reps):
@@ -201,9 +206,10 @@ def unit_primitives(ctx, reps):
                 e[:, pos] = np.arange(1, 256)
                 yield {'kind': 'prim', 'prim': name, 'state': e}
             for _ in range(reps):
-                shp = [(16,), (int(g.integers(1, 5)), 16), (2, int(g.integers(1, 4)), 16)][int(g.integers(3))]
+                shp = [(16,), (int(g.integers(1, 5)), 16), (2, int(g.integers(1, 4)), 16), (int(g.integers(2, 4)), int(g.integers(2, 4)), 16), (2, 3, 2, 16)][int(g.integers(5))]
                 dt = DTYPES[int(g.integers(len(DTYPES)))]
-                yield {'kind': 'prim', 'prim': name, 'state': g.integers(0, 256, size=shp).astype(dt)}
+                yield {'kind': 'prim', 'prim': name, 'state': g.integers(0, 256, size=shp).astype(dt),
+                       'layout': [None, 'F', 'strided', 'negstride', 'swap', 'swap'][int(g.integers(6))]}
         for _ in range(reps * 4):
             n = int(g.integers(1, 5))
             sh = [((16,), (16,)), ((16,), (n, 16)), ((n, 16), (16,)), ((n, 16), (n, 16))][int(g.integers(4))]
